@@ -381,7 +381,7 @@ def run_spect(case, root):
             return SpectTrainingDataLoader(data, p, init_epoch=e, batch_first=case["bf"], data_params=dp, seed=case["seed"],
                                            shuffle=case["shuffle"], sort_batch=case["sort"], **ds_kw)
         if cls_name == "eval":
-            if case.get("eval_prefix_default") is not True and entry != "dataset":
+            if case.get("eval_prefix_explicit") and entry != "dataset":  # default call otherwise (F35: the default was the suffix)
                 ds_kw["file_prefix"] = ""
             return SpectEvaluationDataLoader(data, p, batch_first=case["bf"], data_params=dp, seed=case["seed"], init_epoch=e,
                                              shuffle=case["shuffle"], sort_batch=case["sort"], **ds_kw)
@@ -971,6 +971,7 @@ def gen_spect(rng, big):
                  bs=rng.randint(1, 9), nb=rng.choice([2, 3, 4, 5]), k=0)
     gen_entry(rng, c)
     c["cls"] = rng.choice(["main", "main", "main", "train", "eval"])
+    c["eval_prefix_explicit"] = rng.random() < 0.3
     return gen_names(rng, c, ["subset"] + (["noali"] if c["alis"] and not c["sa"] else []) + (["noref"] if c["refs"] is not None else []))
 
 
